@@ -21,7 +21,7 @@ pub fn def() -> PropDef {
         rule: "case = (field in {Fq,Fr}, a, b with a relation, exponent e); operands from canonical boundaries, stored-limb (Montgomery) boundary patterns, powers of two, small, uniform, and derived pairs whose *stored product / square* is a boundary pattern (b = t/a, a = sqrt(t)) or whose Montgomery quotient digits are boundary limbs; non-trivial = some operand is from a boundary/limb class or the pair is related (not uniform x uniform x independent); distinct by (field,a,b,e)",
         required: crate::runner::req(&[
             "field:q", "field:r", "rel:equal", "rel:negation", "rel:stored-sum-2^256", "add:stored-carry", "add:stored-sum=p",
-            "mul:final-sub", "a:limb-mont", "a:limb-canon", "a:canon-boundary", "inverse:zero", "rel:product-stored-target", "rel:square-stored-target", "rel:quotient-digit-target", "mul:quotient-digit-zero", "mul:quotient-digit-ff", "sqr:pre=2^256+small",
+            "mul:final-sub", "a:limb-mont", "a:limb-canon", "a:canon-boundary", "inverse:zero", "rel:product-stored-target", "rel:inverse-stored-target", "a:stored-pattern", "rel:square-stored-target", "rel:quotient-digit-target", "mul:quotient-digit-zero", "mul:quotient-digit-ff", "sqr:pre=2^256+small",
         ]),
         enumerate: None,
         enumerate_note: "",
@@ -155,6 +155,7 @@ macro_rules! field_case {
         match (la.inverse(), zp::inv_mod(&a, p)) {
             (None, None) => {}
             (Some(g), Some(w)) => {
+                ensure!(<$T>::from_slice(&g.to_slice()) == Some(g), "inverse|second-representation", "{} inverse({:x}) is not in canonical form (from_slice(to_slice(v)) != v)", m.name(), a);
                 let g = $to_big(&g);
                 ensure!(g == w, "inverse|value", "{} inverse({:x}) = {:x} want {:x}", m.name(), a, g, w);
             }
@@ -163,7 +164,12 @@ macro_rules! field_case {
         }
         // ---- pow (exponent = canonical integer of the exponent element; 0^0 = 1)
         let want = zp::pow_mod(&a, &e, p);
-        let g = $to_big(&la.pow(le));
+        let pw = la.pow(le);
+        ensure!(<$T>::from_slice(&pw.to_slice()) == Some(pw), "pow|second-representation", "{} pow({:x}, {:x}) is not in canonical form (from_slice(to_slice(v)) != v)", m.name(), a, e);
+        // squaring through pow: exponent 2 (the last step of the exponentiation is a squaring)
+        let p2 = la.pow($of_big(&BigUint::from(2u32)));
+        ensure!(<$T>::from_slice(&p2.to_slice()) == Some(p2) && p2 == la * la && (p2 - la * la).is_zero() && $to_big(&(-p2)) == zp::neg_mod(&zp::mul_mod(&a, &a, p), p), "pow2|second-representation", "{} pow({:x}, 2) is not observationally equal to a*a", m.name(), a);
+        let g = $to_big(&pw);
         ensure!(g == want, "pow|value", "{} pow({:x}, {:x}) = {:x} want {:x}", m.name(), a, e, g, want);
         // ---- zero test
         ensure!(la.is_zero() == a.is_zero(), "is_zero|value", "{} is_zero({:x}) = {}", m.name(), a, la.is_zero());
@@ -185,20 +191,26 @@ pub fn check(g: &[u8], ctx: &Ctx) -> Result<Info, Failure> {
         // parity of the canonical integer
         ensure!(la.is_even() == !a.bit(0), "is_even|value", "Fq is_even({:x}) = {}", a, la.is_even());
         // internal single-operand helpers used by the tower and curve code (hooks)
+        { let hv = hk::fq_squared(&la); ensure!(Fq::from_slice(&hv.to_slice()) == Some(hv), "squared|second-representation", "Fq squared({:x}) is not in canonical form", a); }
         let g = big_of_fq(&hk::fq_squared(&la));
         ensure!(g == zp::mul_mod(&a, &a, p), "squared|value", "Fq squared({:x}) = {:x}", a, g);
+        { let hv = hk::fq_double(&la); ensure!(Fq::from_slice(&hv.to_slice()) == Some(hv), "double|second-representation", "Fq double({:x}) is not in canonical form", a); }
         let g = big_of_fq(&hk::fq_double(&la));
         ensure!(g == zp::add_mod(&a, &a, p), "double|value", "Fq double({:x}) = {:x}", a, g);
+        { let hv = hk::fq_triple(&la); ensure!(Fq::from_slice(&hv.to_slice()) == Some(hv), "triple|second-representation", "Fq triple({:x}) is not in canonical form", a); }
         let g = big_of_fq(&hk::fq_triple(&la));
         ensure!(g == zp::mul_mod(&a, &BigUint::from(3u32), p), "triple|value", "Fq triple({:x}) = {:x}", a, g);
+        { let hv = hk::fq_div2(&la); ensure!(Fq::from_slice(&hv.to_slice()) == Some(hv), "div2|second-representation", "Fq div2({:x}) is not in canonical form", a); }
         let g = big_of_fq(&hk::fq_div2(&la));
         let half = zp::mul_mod(&a, &((p + 1u32) >> 1), p);
         ensure!(g == half, "div2|value", "Fq div2({:x}) = {:x} want {:x}", a, g, half);
     } else {
         let (la, _lb, a, _b) = field_case!(Fr, Md::R, fr_of_big, big_of_fr, &mut s, info, key, ctx);
         let p = zp::r();
+        { let hv = hk::fr_squared(&la); ensure!(Fr::from_slice(&hv.to_slice()) == Some(hv), "squared|second-representation", "Fr squared({:x}) is not in canonical form", a); }
         let g = big_of_fr(&hk::fr_squared(&la));
         ensure!(g == zp::mul_mod(&a, &a, p), "squared|value", "Fr squared({:x}) = {:x}", a, g);
+        { let hv = hk::fr_double(&la); ensure!(Fr::from_slice(&hv.to_slice()) == Some(hv), "double|second-representation", "Fr double({:x}) is not in canonical form", a); }
         let g = big_of_fr(&hk::fr_double(&la));
         ensure!(g == zp::add_mod(&a, &a, p), "double|value", "Fr double({:x}) = {:x}", a, g);
     }
